@@ -8,6 +8,8 @@ pub mod c08;
 pub mod c09;
 pub mod c10;
 pub mod c12;
+pub mod c13;
+pub mod c14;
 pub mod c17;
 pub mod c19;
 pub mod chist;
@@ -33,6 +35,8 @@ pub fn dispatch(a: &Args) {
 		"c09" => c09::run(a),
 		"c10" => c10::run(a),
 		"c17" => c17::run(a),
+		"c13" => c13::run(a),
+		"c14" => c14::run(a),
 		"c12s" => c12::run(a),
 		"c12child" => c12::child(a),
 		p => {
